@@ -31,8 +31,9 @@ def _report(ctx, r, kind):
     scn = r.get("scn") or {}
     key = dict(kind=kind, carrier=r.get("carrier"), cause=r.get("cause"), side=scn.get("side"), end=scn.get("end"),
                enc_class=_enc_class(scn), diff=r.get("diff") or "", problem=(r.get("problems") or [""])[0][:120])
+    key.update(diff=re.sub(r"\d+", "N", key["diff"])[:160], problem=re.sub(r"\d+", "N", key["problem"])[:80])
     if r.get("cause") in ("crash", "panic"):
-        key.update(diff=re.sub(r"\d+", "N", key["diff"])[:160], problem="")
+        key.update(problem="")
     what = "%s via %s (%s): %s%s; required %s, tracer reported %s; scenario body=%s avail=%s end=%s side=%s hdr=%s calls=%s" % (
         r.get("cause"), r.get("carrier"), r.get("enc"), r.get("diff") or "", (" " + "; ".join(r.get("problems") or []))[:300],
         json.dumps(r.get("exp"))[:300], json.dumps(r.get("obs"))[:300], json.dumps(scn.get("body")), scn.get("avail"),
@@ -186,7 +187,8 @@ def _later_phases(ctx, binp, pool, scnp, outp):
         else:
             scn = r.get("scn") or {}
             key = dict(kind="loopback", carrier=r.get("carrier"), cause=r.get("cause"), side=scn.get("side"), end=scn.get("end"),
-                       enc_class=_enc_class(scn), diff=r.get("diff") or "", problem=(r.get("problems") or [""])[0][:120])
+                       enc_class=_enc_class(scn), diff=re.sub(r"\d+", "N", r.get("diff") or "")[:160],
+                       problem=re.sub(r"\d+", "N", (r.get("problems") or [""])[0])[:80])
             ctx.candidate(key, "%s over %s (%s): %s %s; required %s, tracer reported %s; scenario=%s" % (
                 r.get("cause"), r.get("carrier"), r.get("enc"), r.get("diff"), "; ".join(r.get("problems") or [])[:300],
                 json.dumps(r.get("exp"))[:300], json.dumps(r.get("obs"))[:300], json.dumps(scn)[:400]),
@@ -236,7 +238,8 @@ def _record(ctx, binp, n, maxlen, only=None):
             ctx.notes["unreproduced"] = ctx.notes.get("unreproduced", 0) + 1
             continue
         key = dict(kind="recorded", carrier=r["carrier"], cause=cause, side=r["side"], end=r["end"], enc_class=_enc_class(r),
-                   diff="rejected by Trace_BodyTrace" if i in rejected else "", problem=(r.get("problems") or [""])[0][:120])
+                   diff="rejected by Trace_BodyTrace" if i in rejected else "",
+                   problem=re.sub(r"\d+", "N", (r.get("problems") or [""])[0])[:80])
         slim = dict(r)
         ctx.candidate(key, "%s: recorded execution (%s, %s, %d calls) %s; body=%s avail=%s end=%s side=%s hdr=%s reported=%s" % (
             cause, r["carrier"], r["enc"], r["ncalls"], "; ".join(r.get("problems") or [])[:300], json.dumps(r["body"])[:300],
